@@ -164,7 +164,7 @@ def cases(tier, seed, shard, nshards):
         for reborrow in (False, True):
             for close_at in (1, 2, 3):
                 for susp in (1, 2):
-                    for via in ("handle", "parent"):
+                    for via in ("handle", "parent", "scope"):
                         if via == "parent" and not reborrow:
                             continue
                         idx += 1
@@ -492,7 +492,33 @@ def run_conc_close(case, stats):
             finally:
                 rec["pos_after"] = st.pos
 
+    probes = {}
+
     async def closer():
+        if case["via"] == "scope":
+            # a scope over the handle is left while the other task's read through the handle is pending: whether or
+            # not closing the busy handle is refused, the scope's OWN handle has ended
+            try:
+                async with A.scoped_iter(handle) as scoped:
+                    probes["scoped"] = scoped
+            except RuntimeError as exc:
+                info["refused"] = str(exc)
+            pos = st.pos
+            try:
+                probes["after"] = await scoped.__anext__()
+            except StopAsyncIteration:
+                probes["after"] = "STOP"
+            except RuntimeError as exc:
+                probes["after"] = "STOP" if "already running" in str(exc) else ("raised", str(exc))
+            if hasattr(scoped, "asend"):
+                try:
+                    probes["asend"] = await scoped.asend(None)
+                except StopAsyncIteration:
+                    probes["asend"] = "STOP"
+                except RuntimeError as exc:
+                    probes["asend"] = "STOP" if "already running" in str(exc) else ("raised", str(exc))
+            probes["advanced"] = st.pos - pos
+            return
         try:
             await target.aclose()
             info["closed"] = True
@@ -518,6 +544,12 @@ def run_conc_close(case, stats):
             viols.append({"key": "borrow/concurrent-close-raised", "msg": f"{head}: {t.name} ended with {t.exc!r}"})
     if st.closed or (st.gen is not None and st.gen.ag_frame is None and st.pos < len(items)):
         viols.append({"key": "borrow/underlying-closed", "msg": f"{head}: the underlying iterator was closed"})
+    if case["via"] == "scope":
+        stats["scope_left_during_pending_read"] += 1
+        if probes.get("after", "STOP") != "STOP" or probes.get("asend", "STOP") != "STOP":
+            viols.append({"key": "borrow/scoped-handle-alive-after-its-scope",
+                          "msg": f"{head}: after the scope was left its handle still gave {probes.get('after')!r} "
+                                 f"(asend: {probes.get('asend')!r})"})
     if info["closed"] and case["via"] == "handle":
         stats["concurrent_close_accepted"] += 1
         for rec in reads:
